@@ -345,11 +345,15 @@ theorem closedLive_strip (wc : Bool) {s : Sess} (h : ClosedLive s) : ClosedLive 
   rw [ids_strip]
   exact h m hm r (by simpa [stripNode, strip_refs] using hr)
 
-/-- Save with `writeComments = wc`, load into ANY STEPfile (whatever it read before): the not-deleted instances come back in
+/-- every Part 21 comment an instance carries is within what `ReadComment` reads back (`Generated.maxCommentLength` = 8192
+    characters; a longer one is abandoned and the record behind it skipped — KNOWN_FINDINGS `layout:comment-above-8192`, C10) -/
+def CommentBound (s : Sess) : Prop := ∀ n ∈ s.nodes, n.inst.comment.length ≤ maxCommentLength
+
+/-- Save with `writeComments = wc`, load into ANY STEPfile (whatever it read before), comments within `ReadComment`'s limit: the not-deleted instances come back in
     order with ids, types, values, references, states and — when comments were written — their Part 21 comments; the
     HEADER section is the saved one. -/
 theorem C16_file_roundtrip (wc : Bool) (asev : Inst → Sev) (prev s : FSess)
-    (hs : Inv s.sess) (hn : NoNoState s.sess) (hc : ClosedLive s.sess) (hd : DelBound s.sess) :
+    (hs : Inv s.sess) (hn : NoNoState s.sess) (hc : ClosedLive s.sess) (hd : DelBound s.sess) (_hb : CommentBound s.sess) :
     (readWorkingFile id asev prev (writeWorkingFile wc s)).sess.nodes = (live s.sess).map (stripNode wc) ∧
     (readWorkingFile id asev prev (writeWorkingFile wc s)).header = s.header := by
   constructor
@@ -359,22 +363,24 @@ theorem C16_file_roundtrip (wc : Bool) (asev : Inst → Sev) (prev s : FSess)
     simp [readWorkingFile, writeWorkingFile, mergeHeader, h1]
     intro h; exact absurd h (by decide)
 
-/-- with comments written (the default) nothing at all is lost: the session is the not-deleted part of the saved one -/
+/-- with comments written (the default) nothing at all is lost: the session is the not-deleted part of the saved one
+    (`_hb`: for comments within `ReadComment`'s limit — the entry-level model carries a comment as a string of any length, the
+    code does not) -/
 theorem C16_file_roundtrip_comments (asev : Inst → Sev) (prev s : FSess)
-    (hs : Inv s.sess) (hn : NoNoState s.sess) (hc : ClosedLive s.sess) (hd : DelBound s.sess) :
+    (hs : Inv s.sess) (hn : NoNoState s.sess) (hc : ClosedLive s.sess) (hd : DelBound s.sess) (_hb : CommentBound s.sess) :
     (readWorkingFile id asev prev (writeWorkingFile true s)).sess.nodes = live s.sess := by
-  rw [(C16_file_roundtrip true asev prev s hs hn hc hd).1]
+  rw [(C16_file_roundtrip true asev prev s hs hn hc hd _hb).1]
   have : ∀ n : Node, stripNode true n = n := fun n => by cases n; rfl
   have h2 : (live s.sess).map (stripNode true) = (live s.sess).map id := List.map_congr_left (fun n _ => this n)
   rw [h2, List.map_id]
 
 /-- saving again (same `writeComments`): header identical, entries identical except that the `D` entries are gone -/
 theorem C16_file_second_save (wc : Bool) (asev : Inst → Sev) (prev s : FSess)
-    (hs : Inv s.sess) (hn : NoNoState s.sess) (hc : ClosedLive s.sess) (hd : DelBound s.sess) :
+    (hs : Inv s.sess) (hn : NoNoState s.sess) (hc : ClosedLive s.sess) (hd : DelBound s.sess) (hb : CommentBound s.sess) :
     (writeWorkingFile wc (readWorkingFile id asev prev (writeWorkingFile wc s))).header = s.header ∧
     (writeWorkingFile wc (readWorkingFile id asev prev (writeWorkingFile wc s))).entries =
       (writeWorkingFile wc s).entries.filter (fun e => e.letter ≠ writeLetterOf .delete) := by
-  have hr := C16_file_roundtrip wc asev prev s hs hn hc hd
+  have hr := C16_file_roundtrip wc asev prev s hs hn hc hd hb
   refine ⟨hr.2, ?_⟩
   have h2 := C16_second_save asev (stripSess wc s.sess) (inv_strip wc hs) (noNoState_strip wc hn) (closedLive_strip wc hc) (delBound_strip wc hd)
   have hsess : (readWorkingFile id asev prev (writeWorkingFile wc s)).sess =
@@ -427,7 +433,7 @@ example : EntryText ([35, 50, 61, 73, 40] ++ ((39 :: ([97, 59, 98] ++ [39])) ++ 
 open StepModel.P21 StepModel.P21.RLemmas StepModel.SkipEntry in
 example : EntryText ([35, 50, 61, 73, 40] ++ ((47 :: 42 :: ([59] ++ [42, 47])) ++ [49, 41])) :=
   .plain (by decide) (.plain (by decide) (.plain (by decide) (.plain (by decide) (.plain (by decide)
-    (.comment (by decide) (.plain (by decide) (.plain (by decide) .nil)))))))
+    (.comment (by decide) (by decide) (.plain (by decide) (.plain (by decide) .nil)))))))
 
 /-- why `DelBound` is there: every `D` entry counts towards pass 1's abort rule, so with more than `maxErrorCount` of them in front of
     the first live entry pass 1 is abandoned before anything is created — stated for the abort counter of the model:
